@@ -34,6 +34,13 @@ Proof.
   rewrite (H a (or_introl eq_refl)), IH; [reflexivity|]. intros; apply H; now right.
 Qed.
 
+Lemma mapR_map_ok {A A' B} (h : A -> A') (f : A' -> res B) (g : A -> B) l :
+  (forall a, In a l -> f (h a) = Ok (g a)) -> mapR f (map h l) = Ok (map g l).
+Proof.
+  induction l as [|a t IH]; intros H; cbn; [reflexivity|].
+  rewrite (H a (or_introl eq_refl)), IH; [reflexivity|]. intros; apply H; now right.
+Qed.
+
 Lemma mapR_id_wrap {A B} (f : A -> res B) l :
   mapR (fun a => match f a with Err e => Err e | Ok b => Ok b end) l = mapR f l.
 Proof. apply mapR_ext. intros a. now destruct (f a). Qed.
@@ -106,7 +113,7 @@ Lemma geq_ring_to_wkt : forall circle_bc (r : ringrec) k id,
 Proof.
   intros. unfold g_ring_to_wkt. destruct ((rg_amin r =? 0) && (rg_amax r =? 360)).
   - unfold circle_bounding_coords, mk_circle, hole_bc, write. cbn [fst snd o_outer o_inner map]. do 2 f_equal.
-    f_equal; [apply map_ext; exact geq_coord_to_str|].
+    cbn [app]. unfold wring at 1 2. f_equal; [apply map_ext; exact geq_coord_to_str|].
     f_equal; [apply map_ext; exact geq_coord_to_str|].
     rewrite map_map. apply map_ext. intros h. apply geq_linear_ring_to_wkt.
   - apply geq_polybase_to_wkt.
@@ -155,7 +162,7 @@ Qed.
 Lemma geq_coord_from_wkt : forall m t, g_coord_from_wkt t (zm_order m) = coord_of m t.
 Proof.
   intros m t. unfold g_coord_from_wkt, coord_of, dict_of, dict_get, coordinate_star.
-  destruct t as [|x [|y [|z rest]]]; cbn [length Z.of_nat]; try reflexivity.
+  destruct t as [|x [|y [|z rest]]]; try reflexivity; [cbn; now destruct (zm_order m)|].
   replace (2 <? Z.of_nat (length (x :: y :: z :: rest))) with true
     by (symmetry; apply Z.ltb_lt; cbn [length]; lia).
   cbn [firstn skipn]. now rewrite zm_assign_fold.
@@ -251,9 +258,11 @@ Proof.
   intros half m r0 rs H. rewrite forallb_forall in H.
   rewrite (mapR_ok _ (map (ctot m))).
   2:{ intros r Hr. apply (good_ring_tot m r). now apply H. }
-  cbn [map assemble_polygon]. rewrite map_map.
-  rewrite (mapR_ok _ (fun r => hole_tot half m r)).
-  2:{ intros r Hr. apply ctor_ok. apply (good_ring_tot m r). apply H. now right. }
+  cbn [map assemble_polygon].
+  rewrite (mapR_ok _ (norm_ring half false)).
+  2:{ intros r Hr. apply in_map_iff in Hr. destruct Hr as (r' & <- & Hr').
+      apply ctor_ok. apply (good_ring_tot m r'). apply H. now right. }
+  rewrite map_map.
   rewrite ctor_ok; [reflexivity|]. apply (good_ring_tot m r0). apply H. now left.
 Qed.
 
@@ -290,19 +299,20 @@ Proof.
   { apply mapR_ok. intros r Hr. rewrite geq_parse_ring_r.
     destruct (good_ring_tot (w_zm w) r (H r (or_intror Hr))) as [P N]. rewrite P, (ctor_ok half _ N). reflexivity. }
   unfold poly_ctor. rewrite (ctor_ok half _ N0).
-  destruct rs as [|r1 rs']; cbn [length skipn Z.of_nat].
+  destruct rs as [|r1 rs'].
   - reflexivity.
-  - replace (1 <? Z.of_nat (S (S (length rs')))) with true by (symmetry; apply Z.ltb_lt; lia).
+  - replace (1 <? Z.of_nat (length (r0 :: r1 :: rs'))) with true by (symmetry; apply Z.ltb_lt; cbn [length]; lia).
+    cbn [skipn].
     rewrite HS. reflexivity.
 Qed.
 
-Lemma geq_multipoint_from_wkt : forall half w, g_multipoint_from_wkt half w = read half TMPoint w.
+Lemma geq_multipoint_from_wkt : forall half w, g_multipoint_from_wkt w = read half TMPoint w.
 Proof.
   intros half w. unfold g_multipoint_from_wkt, read, gate_mpoint_flat, gate_mpoint_nested.
   destruct (gate TMPoint w) eqn:G; [|reflexivity]. cbn [andb].
   unfold findall_ring, parse_body. gate_inv G.
-  - (* flat *) cbn [index0]. rewrite geq_parse_ring_r. rewrite map_id.
-    destruct (mapR (coord_of (w_zm w)) l); reflexivity.
+  - (* flat *) cbn [index0]. rewrite geq_parse_ring_r.
+    destruct (mapR (coord_of (w_zm w)) l); [now rewrite map_id|reflexivity].
   - (* nested: one parenthesised coordinate per point *)
     erewrite mapR_ext with (g := mapR (coord_of (w_zm w))).
     2:{ intros r. rewrite geq_parse_ring_r. destruct (mapR _ r); [now rewrite map_id|reflexivity]. }
@@ -332,16 +342,17 @@ Proof.
   { rewrite (mapR_ok _ (map (map (ctot (w_zm w))))).
     2:{ intros p Hp. specialize (H p Hp). apply andb_prop in H. destruct H as [_ H]. rewrite forallb_forall in H.
         apply mapR_ok. intros r Hr. apply (good_ring_tot (w_zm w) r). now apply H. }
-    cbn [assemble]. rewrite (mapR_ok _ (fun p => poly_tot half (w_zm w) p)).
-    - now rewrite map_map.
-    - intros q Hq. apply in_map_iff in Hq. destruct Hq as (p & <- & Hp).
+    cbn [assemble]. rewrite (mapR_map_ok _ _ (fun p => poly_tot half (w_zm w) p)).
+    - reflexivity.
+    - intros p Hp.
       specialize (H p Hp). apply andb_prop in H. destruct H as [N H]. destruct p as [|r0 rs]; [discriminate N|].
       pose proof (model_polygon_tot half (w_zm w) r0 rs H) as MP.
       rewrite forallb_forall in H.
       rewrite (mapR_ok _ (map (ctot (w_zm w)))) in MP.
       2:{ intros r Hr. apply (good_ring_tot (w_zm w) r). now apply H. }
-      rewrite map_map in MP. rewrite map_map. exact MP. }
-  rewrite M. clear M.
+      exact MP. }
+  destruct (mapR (mapR (mapR (coord_of (w_zm w)))) l) as [b|e]; [|discriminate M].
+  etransitivity; [|symmetry; exact M]. clear M b.
   (* the generated loop *)
   rewrite loop_app_mapR.
   rewrite (mapR_ok _ (fun p => poly_tot half (w_zm w) p)); [reflexivity|].
@@ -349,13 +360,14 @@ Proof.
   rewrite forallb_forall in H. cbn [index0]. rewrite geq_parse_ring_r.
   destruct (good_ring_tot (w_zm w) r0 (H r0 (or_introl eq_refl))) as [P0 N0]. rewrite P0.
   unfold poly_ctor. rewrite (ctor_ok half _ N0).
-  destruct rs as [|r1 rs']; cbn [length skipn Z.of_nat].
+  destruct rs as [|r1 rs'].
   - reflexivity.
-  - replace (1 <? Z.of_nat (S (S (length rs')))) with true by (symmetry; apply Z.ltb_lt; lia).
+  - replace (1 <? Z.of_nat (length (r0 :: r1 :: rs'))) with true by (symmetry; apply Z.ltb_lt; cbn [length]; lia).
+    cbn [skipn].
     rewrite loop_app_mapR.
     rewrite (mapR_ok _ (fun r => hole_tot half (w_zm w) r)); [reflexivity|].
     intros r Hr. rewrite geq_parse_ring_r.
-    destruct (good_ring_tot (w_zm w) r (H r (or_intror Hr))) as [P N]. rewrite P, (ctor_ok half _ N). reflexivity.
+    destruct (good_ring_tot (w_zm w) r (H r (or_intror Hr))) as [P Nr]. rewrite P, (ctor_ok half _ Nr). reflexivity.
 Qed.
 
 (* ---------------------------------------------------------------- parse_wkt *)
@@ -364,7 +376,7 @@ Qed.
 Lemma geq_parser_map : forall half,
   g_parser_map half =
   [(TPoint, g_point_from_wkt); (TLine, g_linestring_from_wkt); (TPoly, g_polygon_from_wkt half);
-   (TMPoint, g_multipoint_from_wkt half); (TMLine, g_multilinestring_from_wkt); (TMPoly, g_multipolygon_from_wkt half)].
+   (TMPoint, g_multipoint_from_wkt); (TMLine, g_multilinestring_from_wkt); (TMPoly, g_multipolygon_from_wkt half)].
 Proof. reflexivity. Qed.
 
 (* dispatch on the leading word: only the six keywords in capitals, then that type's reader.  has_word tells
@@ -381,7 +393,7 @@ Proof.
     + rewrite <- (geq_point_from_wkt half). now destruct (g_point_from_wkt w).
     + rewrite <- (geq_linestring_from_wkt half). now destruct (g_linestring_from_wkt w).
     + rewrite <- geq_polygon_from_wkt. now destruct (g_polygon_from_wkt half w).
-    + rewrite <- geq_multipoint_from_wkt. now destruct (g_multipoint_from_wkt half w).
+    + rewrite <- (geq_multipoint_from_wkt half). now destruct (g_multipoint_from_wkt w).
     + rewrite <- (geq_multilinestring_from_wkt half). now destruct (g_multilinestring_from_wkt w).
     + rewrite <- geq_multipolygon_from_wkt. now destruct (g_multipolygon_from_wkt half w).
   - now rewrite (HW eq_refl).
